@@ -419,8 +419,125 @@ func vfRunC18Model(ctx *vfCtx, c vfCaseC18Model) {
 	}
 }
 
+// ---- the package's own in-memory handlers ------------------------------------------------------------------
+//
+// The differential above serves the instrumented handler set, whose files copy what they are given. The
+// package ships a handler set of its own (InMemHandler, the documented example backend); a server built on it
+// must be as indifferent to the allocator as any other (seed C18-g: its files kept the request's buffer).
+// Model-based: whatever was written is what every later read returns, with the allocator on and off.
+
+type vfC18MemOp struct {
+	K    string // W | R
+	File int
+	Off  int
+	Len  int
+}
+
+type vfCaseC18Mem struct {
+	Alloc bool
+	Ops   []vfC18MemOp
+}
+
+func vfGenC18Mem(t *rapid.T) vfCaseC18Mem {
+	c := vfCaseC18Mem{Alloc: rapid.IntRange(0, 3).Draw(t, "alloc") != 0}
+	n := rapid.IntRange(2, 24).Draw(t, "n")
+	for i := 0; i < n; i++ {
+		op := vfC18MemOp{K: rapid.SampledFrom([]string{"W", "W", "R", "R", "R"}).Draw(t, "k"), File: rapid.IntRange(0, 3).Draw(t, "file")}
+		op.Off = rapid.SampledFrom([]int{0, 0, 0, 1, 21, 22, 23, 100, 5000}).Draw(t, "off")
+		op.Len = rapid.SampledFrom([]int{1, 21, 22, 23, 100, 5000, 32768}).Draw(t, "len")
+		c.Ops = append(c.Ops, op)
+	}
+	return c
+}
+
+func vfRunC18Mem(ctx *vfCtx, c vfCaseC18Mem) {
+	baseline := vfPkgGoroutineIDs()
+	l := newVfLink()
+	var opts []sftp.RequestServerOption
+	if c.Alloc {
+		opts = append(opts, sftp.WithRSAllocator())
+	}
+	srv := sftp.NewRequestServer(l.Server, sftp.InMemHandler(), opts...)
+	served := make(chan struct{})
+	go func() { defer close(served); srv.Serve() }()
+	cl, err := sftp.NewClientPipe(l.Client, l.Client)
+	if err != nil {
+		ctx.Failf("harness/client", "%v", err)
+	}
+	model := map[int][]byte{}
+	files := map[int]*sftp.File{}
+	bad := ""
+	d, res := vfCall(func() (string, error) {
+		for i, op := range c.Ops {
+			f := files[op.File]
+			if f == nil {
+				if op.K == "R" {
+					continue
+				}
+				var err error
+				if f, err = cl.OpenFile(fmt.Sprintf("/f%d", op.File), os.O_RDWR|os.O_CREATE); err != nil {
+					return "", err
+				}
+				files[op.File] = f
+			}
+			switch op.K {
+			case "W":
+				data := vfPRFBytes(uint32(70+i), op.Off, op.Len)
+				if n, err := f.WriteAt(data, int64(op.Off)); err != nil || n != op.Len {
+					return "", fmt.Errorf("WriteAt: n=%d err=%v", n, err)
+				}
+				m := model[op.File]
+				for len(m) < op.Off+op.Len {
+					m = append(m, 0)
+				}
+				copy(m[op.Off:], data)
+				model[op.File] = m
+			case "R":
+				m := model[op.File]
+				b := make([]byte, op.Len)
+				n, _ := f.ReadAt(b, int64(op.Off))
+				var want []byte
+				if op.Off < len(m) {
+					want = m[op.Off:minInt(len(m), op.Off+op.Len)]
+				}
+				if n != len(want) || !bytes.Equal(b[:n], want) {
+					bad = fmt.Sprintf("operation %d %+v returned %d bytes that differ from what was written to /f%d at +%d (allocator %v)", i, op, n, op.File, vfDiffAt(b[:n], want), c.Alloc)
+					return "", nil
+				}
+			}
+		}
+		return "", nil
+	})
+	if !vfAwait(ctx, d, "in-memory session") {
+		ctx.Failf("C18/inmem/hang", "the session never finishes\n%s", vfDumpRelevant())
+	}
+	if res.Panic != nil {
+		ctx.Failf("panic/"+vfPanicSite([]byte(res.Stack)), "%v\n%s", res.Panic, vfTrimStack([]byte(res.Stack)))
+	}
+	if res.Err != nil {
+		ctx.Failf("C18/inmem/error", "an operation on the in-memory backend failed (allocator %v): %v", c.Alloc, res.Err)
+	}
+	if bad != "" {
+		ctx.Failf("C18/inmem/content", "%s", bad)
+	}
+	dc, _ := vfCall(func() (string, error) { return "", cl.Close() })
+	vfAwait(ctx, dc, "Close")
+	l.C2S.closeWrite()
+	if !vfAwait(ctx, served, "Serve") {
+		ctx.Failf("C18/inmem/serve-hangs", "Serve never returns")
+	}
+	vfCheckNoLeak(ctx, "C18/inmem/leak", baseline)
+	ctx.Class(fmt.Sprintf("inmem alloc=%v", c.Alloc))
+	if len(model) > 0 {
+		ctx.NonTrivial()
+	}
+}
+
 func TestVerifC18(t *testing.T) {
 	t.Run("diff", func(t *testing.T) { vfDriveSub(t, "diff", vfProp[vfCaseC18]{ID: "C18", Gen: vfGenC18, Run: vfRunC18}) })
+	t.Run("inmem", func(t *testing.T) {
+		vfDriveSub(t, "inmem", vfProp[vfCaseC18Mem]{ID: "C18", Gen: vfGenC18Mem, Run: vfRunC18Mem})
+	})
 	t.Run("model", func(t *testing.T) {
 		defer vfScaleChecks(1)()
 		vfDriveSub(t, "model", vfProp[vfCaseC18Model]{ID: "C18", Run: vfRunC18Model, Gen: func(rt *rapid.T) vfCaseC18Model {
